@@ -275,10 +275,10 @@ fn view_iter_script(src: &str, d: &[u8], steps: &[crate::iterscript::Step], scri
     }
     let (obs, diff) = if src == "iter" {
         let real = its::forward(msg.iter(), |p: (Tag, &[u8])| pair_str(p.0, p.1));
-        its::run_both("C12", "MessageView::iter() against get(i)", steps, script, real, items)
+        its::run_both("C12", "MessageView::iter() against get(i)", steps, script, real, items, false)
     } else {
         let real = its::double_ended(msg.tags().iter(), |t: &Tag| t.value().to_string());
-        its::run_both("C12", "MessageView::tags().iter() against get(i)", steps, script, real, items)
+        its::run_both("C12", "MessageView::tags().iter() against get(i)", steps, script, real, items, true)
     };
     so.obs.push(obs);
     so.violations.extend(diff);
